@@ -569,6 +569,7 @@ def battery():
         M("lone ball on the jam switch of an empty device distrusted", "mpf/devices/ball_device/switch_counter.py", "            if self.is_jammed() and new_count == 1 and self._last_count != 0:", "            if self.is_jammed() and new_count == 1:", "JAM-4"),
         M("idle mechanical eject assumed to have left", "mpf/devices/ball_device/outgoing_balls_handler.py", "                    await self.ball_device.ball_count_handler.end_eject(ball_eject_process, result)\n                    if result:\n                        continue", "                    await self.ball_device.ball_count_handler.end_eject(ball_eject_process, True)\n                    if result:\n                        continue", "ENDEJ-4"),
         M("ball search writes off promised balls too", "mpf/core/ball_search.py", "        lost_balls = self.playfield.balls\n", "        lost_balls = self.playfield.available_balls\n", "GIVEUP-4"),
+        M("idle mechanical eject keeps the ball in the device's pool (F19 reverted)", BD, "        self.available_balls -= 1\n        self.config['eject_targets'][0].available_balls += 1", "        self.config['eject_targets'][0].available_balls += 1", "CLAIM-4"),
     ]
 
 
